@@ -204,6 +204,9 @@ func forcedCollisionScript(cfg collCfg, first string, kill ...string) func(w *wo
 				switch how {
 				case "cease":
 					fc.Write(wire.Notification(6, 7, nil))
+				case "cease0":
+					// what another corebgp sends on the connection it drops
+					fc.Write(wire.Notification(6, 0, nil))
 				case "fin":
 					fc.CloseWrite()
 				}
@@ -270,8 +273,22 @@ func judgeForcedCollision(cfg collCfg, w *world.World, o *collObs) (string, stri
 // judgeForcedKill: the remote ended the first connection itself while the collision was being
 // resolved. Whatever wins, corebgp must not wedge: the second connection (which the remote did not
 // touch) is either Established in the end or was closed by corebgp with a Cease; never both up.
-func judgeForcedKill(first string, w *world.World, o *collObs) (string, string) {
+func judgeForcedKill(cfg collCfg, first string, w *world.World, o *collObs) (string, string) {
 	second := otherDir(first)
+	ruleWinner := "in"
+	if cfg.localDominant {
+		ruleWinner = "out"
+	}
+	if second == ruleWinner {
+		// the remote dropped the connection that loses by the rule anyway: whatever corebgp makes of the
+		// Cease/FIN on the loser, the winner is "left untouched and becomes Established"
+		if o.notif[second] != nil {
+			return "survivor-killed", fmt.Sprintf("the remote itself ended the losing connection (%s); the connection initiated by the dominant speaker (%s) received %s", first, second, o.notif[second])
+		}
+		if !o.established[second] {
+			return "survivor-not-established", fmt.Sprintf("the remote itself ended the losing connection (%s); the connection initiated by the dominant speaker (%s) did not become Established (eof=%v)", first, second, o.eof[second])
+		}
+	}
 	if o.established["in"] && o.established["out"] && !o.eof["in"] && !o.eof["out"] {
 		return "both-established", "both connections survived as Established"
 	}
@@ -563,12 +580,12 @@ func c07Scenarios(th bool) []*Scn {
 					return finishRun("C07", "forced-collision", w, e, trace, false, func() (string, string) { return judgeForcedCollision(cfg, w, o) }, nil)
 				}})
 			if ci < 2 {
-				for _, how := range []string{"cease", "fin"} {
+				for _, how := range []string{"cease", "cease0", "fin"} {
 					how := how
 					out = append(out, &Scn{Name: fmt.Sprintf("forced-kill/%s/%s-first/%s", cfg.name, first, how), Bound: bound,
 						Run: func(ch vrt.Chooser, trace bool) *ScnResult {
 							w, e, o := collRun(cfg, ch, trace, false, forcedCollisionScript(cfg, first, how), nil)
-							return finishRun("C07", "forced-kill", w, e, trace, false, func() (string, string) { return judgeForcedKill(first, w, o) }, nil)
+							return finishRun("C07", "forced-kill", w, e, trace, false, func() (string, string) { return judgeForcedKill(cfg, first, w, o) }, nil)
 						}})
 				}
 				// a second collision of the same peer after the remote came back with an identifier on the other side
